@@ -167,4 +167,17 @@ PROPS = {
         assumptions=COMMON_ASSUME,
         partial=[],
     ),
+    "C11": dict(
+        level="proof",
+        trusted_base=[KERNEL, CORR,
+                      "modelled, not verified: VecDeque as List with push at the back; the queue loops take fuel nrows+ncols+1 (proved sufficient); "
+                      "usize::MAX as 2(nrows+ncols)+2 (larger than any path length); the branch labels of the repaired local_girth (defect D5)"],
+        rule=("the D5 corpus plus 400 (6000 thorough) graphs up to 12x12 (20x20) from 7 families (forest, unicyclic with pendant paths/trees, dense, disconnected, "
+              "theta with pendant, sparse random, pendant path on a 4-cycle); for EVERY root (all row and column nodes) and a bound drawn from {0..14, even 2..12, "
+              "unbounded}: bfs() distance vectors, girth_at_node[_with_max], girth[_with_max] compared exactly with the model and, as property predicate, with an "
+              "independent oracle (level-synchronous BFS; shortest cycle through r = min over edges (r,a) of 1 + dist(a,r) without that edge); non-trivial = at "
+              "least 2 edges; distinct = distinct canonical input"),
+        assumptions=COMMON_ASSUME,
+        partial=[],
+    ),
 }
